@@ -484,6 +484,9 @@ func TestC03(t *testing.T) {
 			}
 		}
 	}
+	if r.Lane == 1%r.Lanes {
+		quicClose(r, 3, r.N(8, 320), false)
+	}
 	defer func() { r.Obs("events_concurrent_with_close_same_instant_other_goroutine", c03ConcurrentWithClose.Load()) }()
 	rng := r.Rand(33)
 	for i, c := range cases {
